@@ -252,6 +252,16 @@ fn run_xyb(ctx: &Ctx, roundtrip: bool) {
                 k.push(kinds[i]);
             }
             process(&v, &k, false, None);
+            // long runs of pixels of one stratum (hundreds of consecutive near-black / out-of-gamut / grey pixels): state
+            // that builds up from pixel to pixel needs a run to become visible
+            {
+                let m = px.len().min(16384);
+                let mut order: Vec<usize> = (0..m).collect();
+                order.sort_by_key(|i| kinds[*i]);
+                let v: Vec<[f32; 3]> = order.iter().map(|i| px[*i]).collect();
+                let k: Vec<usize> = order.iter().map(|i| kinds[*i]).collect();
+                process(&v, &k, false, None);
+            }
             // letterboxed: whole rows of black above and between the rows of subjects, none below
             let m = px.len().min(6000);
             let wrow = [61usize, 64, 17][(ck / 3 % 3) as usize];
